@@ -55,7 +55,7 @@ struct Answer { bool ok; vector<uint8_t> data; };
 class Line : public DiscoveryTargetInterface {
  public:
   enum Kind { NONE, UNMUTE, MUTE, BRANCH };
-  Line() : pending(NONE), p_uid(0), p_lo(0), p_hi(0), nonnull_silence(false), m_mute_cb(NULL), m_unmute_cb(NULL), m_branch_cb(NULL) {}
+  Line() : pending(NONE), p_uid(0), p_lo(0), p_hi(0), nonnull_silence(false), stale(NONE), m_mute_cb(NULL), m_unmute_cb(NULL), m_branch_cb(NULL) {}
   void MuteDevice(const UID &target, MuteDeviceCallback *cb) {
     pending = MUTE; p_uid = uid_n(target); m_mute_cb = cb;
   }
@@ -92,6 +92,7 @@ class Line : public DiscoveryTargetInterface {
   Kind pending;
   u64 p_uid, p_lo, p_hi;
   bool nonnull_silence;   // how the next silent DUB is reported
+  Kind stale;             // request that was in flight at the last Abort()
  private:
   MuteDeviceCallback *m_mute_cb;
   UnMuteDeviceCallback *m_unmute_cb;
@@ -108,14 +109,22 @@ static vector<uint8_t> RespFrame(const Resp &r) {
 static bool Responds(const Resp &r, u64 lo, u64 hi) {
   return !r.has(8) && (r.has(2) || (lo <= r.uid && r.uid <= hi)) && (r.has(0) || !r.muted);
 }
+static bool Hidden(const vector<Resp> &pop, const Resp &r) {
+  if (!r.has(9)) return false;
+  for (size_t i = 0; i < pop.size(); i++) if (pop[i].has(10) && !pop[i].muted) return true;
+  return false;
+}
 static Answer PopAnswer(vector<Resp> *pop, const Line &line) {
   Answer a; a.ok = false;
   if (line.pending == Line::UNMUTE) {
     for (size_t i = 0; i < pop->size(); i++) (*pop)[i].muted = false;
     a.ok = true;
   } else if (line.pending == Line::MUTE) {
+    vector<bool> hid(pop->size());
+    for (size_t i = 0; i < pop->size(); i++) hid[i] = Hidden(*pop, (*pop)[i]);   // as of the request
     for (size_t i = 0; i < pop->size(); i++) {
       Resp &r = (*pop)[i];
+      if (hid[i]) continue;
       if (r.uid != line.p_uid) continue;
       if (r.has(1)) continue;
       if (r.has(5)) {
@@ -128,7 +137,7 @@ static Answer PopAnswer(vector<Resp> *pop, const Line &line) {
   } else {
     for (size_t i = 0; i < pop->size(); i++) {
       const Resp &r = (*pop)[i];
-      if (!Responds(r, line.p_lo, line.p_hi)) continue;
+      if (!Responds(r, line.p_lo, line.p_hi) || Hidden(*pop, r)) continue;
       vector<uint8_t> f = RespFrame(r);
       if (f.size() > a.data.size()) a.data.resize(f.size(), 0);
       for (size_t j = 0; j < f.size(); j++) a.data[j] |= f[j];
@@ -316,6 +325,7 @@ static string handle_h(const vector<string> &tok) {
     for (size_t i = 2; i < tok.size(); i++) {
       const string &op = tok[i];
       if (op[0] == 'S') {
+        line.stale = Line::NONE;
         // refused iff a discovery is running: observable as "the callback ran during Start"
         size_t before = sess.events.size();
         unsigned id = sess.next_id;
@@ -328,10 +338,21 @@ static string handle_h(const vector<string> &tok) {
         pop = ParsePop(op.substr(2));
       } else if (op[0] == 'A') {
         sess.log.push_back("A");
-        line.pending = Line::NONE;   // the line drops the request in flight
+        line.stale = line.pending;   // the request in flight: dropped, or answered late by an L op
+        line.pending = Line::NONE;
         agent->Abort();
+        if (line.pending != Line::NONE) line.stale = Line::NONE;   // the abort callback started a new run
+      } else if (op[0] == 'L') {
+        if (line.stale != Line::NONE) {
+          sess.log.push_back("L");
+          line.pending = line.stale;
+          line.stale = Line::NONE;
+          line.nonnull_silence = (tok.size() % 2) == 0;
+          line.Deliver(ParseTok(op.substr(2)));
+        }
       } else if (op[0] == 'D') {
         sess.log.push_back("D");
+        line.stale = Line::NONE;
         line.pending = Line::NONE;   // the line drops the request in flight
         sess.dying = true;           // a callback run by the destructor does not start another run
         delete agent;
